@@ -674,7 +674,15 @@ def _r2(ctx):
                      text="transition midpoint")
     g = prog.func(PKG + "fatigue_data:FatigueData._calc_finite_zone")
     c = [c for c in calls_in(g.node) if isinstance(c.func, ast.Attribute) and c.func.attr == "_calc_finite_zone_manual"]
-    if len(c) == 1 and is_self_attr(c[0].args[0], "max_runout_load"):
+    ok_arg = len(c) == 1 and is_self_attr(c[0].args[0], "max_runout_load")
+    if len(c) == 1 and not ok_arg:
+        # the property written out in place: runouts = self.runouts ... runouts.load.max()
+        from ..astutil import inline_single_defs
+        prop = prog.lookup_method(g.cls, "max_runout_load")
+        pr = [x for x in walk_function(prop.node) if isinstance(x, ast.Return) and x.value is not None] if prop is not None else []
+        arg = inline_single_defs(g.node, c[0].args[0], depth=3)
+        ok_arg = len(pr) == 1 and norm_text(arg) == norm_text(inline_single_defs(prop.node, pr[0].value, depth=3))
+    if ok_arg:
         ctx.holds(g, c[0], "automatic split uses the highest run-out level")
     else:
         ctx.violated(g, c[0] if c else g.node, "automatic zone split is not made at the highest run-out level")
